@@ -22,7 +22,19 @@ import (
 )
 
 // VerifDir is where evidence, replays and known findings live.
-var VerifDir = "/verif"
+var VerifDir = verifDir()
+
+// verifDir is the checkout the running binary belongs to (<root>/dsim/bin/run.N/check): /verif for the
+// registered commands, a snapshot's own directory for background runs started from a snapshot.
+func verifDir() string {
+	if exe, err := os.Executable(); err == nil {
+		root := filepath.Dir(filepath.Dir(filepath.Dir(filepath.Dir(exe))))
+		if _, err := os.Stat(filepath.Join(root, "known_findings.json")); err == nil {
+			return root
+		}
+	}
+	return "/verif"
+}
 
 // ReplayFile is the on-disk form of one failing (or sample) run.
 type ReplayFile struct {
